@@ -260,6 +260,7 @@ class LegResult:
         self.diffs = []   # (input, shard, idx)
         self.mons = []    # (input, monitor number, shard, idx)
         self.errors = []
+        self.crashes = []  # (input, exit code, log tail): the implementation killed the driver process on this input
         self.tags = {}    # input -> tags of that case
         self.wall = 0.0
 
@@ -283,6 +284,22 @@ def run_leg(binary, driver, n, seed, tier, shard=250, corpus=None, single_input=
         lr.driver_log = out[-4000:]
         if rc != 0:
             lr.errors.append("driver %s exited %d: %s" % (driver, rc, out[-1500:]))
+            # the process died: which input was it executing?  Re-run each candidate alone.
+            if single_input is None:
+                try:
+                    cands = [l for l in open(os.path.join(work, driver + ".inflight")).read().split("\n") if l.strip()]
+                except OSError:
+                    cands = []
+                for c in cands[:16]:
+                    w2 = tempfile.mkdtemp(prefix="zv-%s-crash-" % driver)
+                    try:
+                        rc2, out2 = run([binary, driver, "-input", c, "-out", w2, "-tier", tier], cwd=w2, timeout=600, env=env)
+                    finally:
+                        shutil.rmtree(w2, ignore_errors=True)
+                    if rc2 != 0:
+                        lr.crashes.append((c, rc2, out2[-3000:]))
+            else:
+                lr.crashes.append((single_input, rc, out[-3000:]))
             return lr
         try:
             lr.meta = json.load(open(os.path.join(work, driver + ".meta.json")))
